@@ -56,6 +56,16 @@ def load(table, name, fresh=False):
     chain = X509CertChain([x])
     key = parsePEMKey(_read(keyf), private=True,
                       implementations=["python"])
+    if hasattr(key, "_rawPrivateKeyOp") and getattr(key, "n", None):
+        # RSA keys create their blinding pair from fresh randomness on the
+        # first private operation: do it now, outside any case's DRBG
+        # stream, so that replays of a case are bit-identical
+        saved = (boot.drbg.key, boot.drbg.ctr)
+        boot.drbg.reseed("warm/" + keyf)
+        try:
+            key._rawPrivateKeyOp(2)
+        finally:
+            boot.drbg.key, boot.drbg.ctr = saved
     if not fresh:
         _cache[k] = (chain, key)
     return chain, key
